@@ -76,21 +76,24 @@ impl FaultKind {
             FaultKind::FarOff { variant: 1, pick: 7 },
             FaultKind::FarOff { variant: 2, pick: 8 },
             FaultKind::FarOff { variant: 3, pick: 9 },
+            FaultKind::NonFinite { variant: 0 },
+            FaultKind::NonFinite { variant: 1 },
         ]
     }
 
     pub fn random(rng: &mut Prng) -> FaultKind {
-        // NonFinite is deliberately never generated: C11 quantifies over
-        // {Error, Unbounded, perturbed witness, far-off witness}; see DESIGN.md 4.5.
-        match rng.below(6) {
-            0 => FaultKind::Error,
-            1 => FaultKind::Unbounded,
-            2 | 3 => FaultKind::Perturb {
+        // non-finite witnesses (NaN, +inf) are the limit case of "an 'optimal' point that is not in
+        // the polytope"; see DESIGN.md 6.6 for the defect they exposed
+        match rng.below(13) {
+            0 | 1 => FaultKind::Error,
+            2 | 3 => FaultKind::Unbounded,
+            4..=7 => FaultKind::Perturb {
                 exp: *rng.pick(&[-9, -7, -5, -3, -1]),
                 outward: rng.chance(1, 2),
                 pick: rng.next_u64(),
             },
-            _ => FaultKind::FarOff { variant: rng.below(4) as u8, pick: rng.next_u64() },
+            8..=11 => FaultKind::FarOff { variant: rng.below(4) as u8, pick: rng.next_u64() },
+            _ => FaultKind::NonFinite { variant: rng.below(2) as u8 },
         }
     }
 }
